@@ -333,6 +333,36 @@ func c15CheckState(got c15Elem, want c15Input, prefix string, deep bool) (string
 	return "", ""
 }
 
+// c15StructCopy is the copy a caller makes to "apply on a copy": a struct copy with the
+// children cloned. The update list is shared with the original (same backing array), which
+// is enough as long as applying only writes children and re-points the Updates field.
+func c15StructCopy(e c15Elem) c15Elem {
+	switch x := e.(type) {
+	case *osm.Way:
+		cp := *x
+		cp.Nodes = append(osm.WayNodes(nil), x.Nodes...)
+		return &cp
+	case *osm.Relation:
+		cp := *x
+		cp.Members = append(osm.Members(nil), x.Members...)
+		return &cp
+	}
+	panic("harness: unknown element")
+}
+
+// c15Untouched: the original of a struct copy (children and the update list seen through
+// its own slice header) is still what it was built from.
+func c15Untouched(o c15Elem, in c15Input) (string, bool) {
+	cs, us := c15Extract(o)
+	switch {
+	case !c15SameUpdates(us, in.Updates):
+		return fmt.Sprintf("the update list shared with the copy now reads %s, it was %s", fw.JSON(us), fw.JSON(in.Updates)), false
+	case !c15SameChildren(cs, in.Children):
+		return fmt.Sprintf("the children of the original now read %s", fw.JSON(cs)), false
+	}
+	return "", true
+}
+
 // c15EvalAt runs every single-instant oracle on (in, t).
 func c15EvalAt(in c15Input, t c15T, count c15Counter) (fails []c15Fail) {
 	k := "C15/" + in.kind()
@@ -346,8 +376,9 @@ func c15EvalAt(in c15Input, t c15T, count c15Counter) (fails []c15Fail) {
 	}
 	want, oor := c15RefApply(in, t)
 
-	// 1. ApplyUpdatesUpTo
-	e := in.build()
+	// 1. ApplyUpdatesUpTo, on a struct copy of the original o (shared update list)
+	o := in.build()
+	e := c15StructCopy(o)
 	err, pan := c15Call(e, tt)
 	count("apply_calls")
 	applied := false
@@ -383,19 +414,26 @@ func c15EvalAt(in c15Input, t c15T, count c15Counter) (fails []c15Fail) {
 			}
 		}
 	case err != nil:
-		var oe *osm.UpdateIndexOutOfRangeError
-		if c15HasOOR(in) && errors.As(err, &oe) {
-			// only a *later* update is out of range: the statement does not say whether that
-			// must be reported already; tolerated, nothing else asserted
-			count("late_out_of_range_reported_early_tolerated")
-		} else {
-			fail(k+"/apply/unexpected-error", fmt.Sprintf("ApplyUpdatesUpTo returned %v although every in-time update names an existing child", err), nil)
+		// later updates are not applied, they stay pending: an out-of-range index among them
+		// is none of this call's business (it is reported once t reaches it)
+		key := k + "/apply/unexpected-error"
+		if c15HasOOR(in) {
+			key = k + "/apply/pending-out-of-range-reported-early"
 		}
+		fail(key, fmt.Sprintf("ApplyUpdatesUpTo returned %v although every update stamped at or before t names an existing child", err), nil)
 	default:
 		applied = true
+		if c15HasOOR(in) {
+			count("apply_with_pending_only_out_of_range_index")
+		}
 		if key, what := c15CheckState(e, want, k+"/apply", true); key != "" {
 			fail(key, what, nil)
 		}
+	}
+
+	what, intact := c15Untouched(o, in)
+	if !intact && pan == nil {
+		fail(k+"/apply/writes-shared-update-list", "ApplyUpdatesUpTo on a struct copy (children cloned, update list shared) changed the original: "+what, nil)
 	}
 
 	// 2. Updates.UpTo
@@ -417,7 +455,7 @@ func c15EvalAt(in c15Input, t c15T, count c15Counter) (fails []c15Fail) {
 
 	// 3. LineStringAt
 	if !in.Rel {
-		w := in.way()
+		w := o.(*osm.Way) // the original, after ApplyUpdatesUpTo(t) ran on its struct copy
 		var ls orb.LineString
 		func() {
 			defer func() {
@@ -428,7 +466,7 @@ func c15EvalAt(in c15Input, t c15T, count c15Counter) (fails []c15Fail) {
 			ls = w.LineStringAt(tt)
 		}()
 		count("linestring_at_calls")
-		if cs, us := c15Extract(w); !c15SameChildren(cs, in.Children) || !c15SameUpdates(us, in.Updates) {
+		if cs, us := c15Extract(w); intact && (!c15SameChildren(cs, in.Children) || !c15SameUpdates(us, in.Updates)) {
 			fail("C15/linestring-at/mutates-way", fmt.Sprintf("LineStringAt changed the way it was called on: nodes %s updates %s", fw.JSON(cs), fw.JSON(us)), nil)
 		}
 		wantLine := c15RefLine(want.Children)
@@ -448,7 +486,10 @@ func c15EvalAt(in c15Input, t c15T, count c15Counter) (fails []c15Fail) {
 				// geometry at t; if the answer is right once they are taken out of the list,
 				// the failure is caused by a late update stored before an in-time one
 				key := "C15/linestring-at/mismatch"
-				if c15LateBeforeInTime(in.Updates, t) {
+				if !intact && c15SameLine(in.way().LineStringAt(tt), wantLine) {
+					// right on a way nobody else touched: the apply on the struct copy did it
+					key = "C15/linestring-at/after-apply-on-struct-copy"
+				} else if c15LateBeforeInTime(in.Updates, t) {
 					w2 := c15Input{Children: in.Children, Updates: inTime}.way()
 					if c15SameLine(w2.LineStringAt(tt), wantLine) {
 						key = "C15/linestring-at/late-update-before-intime"
@@ -474,33 +515,54 @@ func lineToPairs(ls orb.LineString) [][2]float64 {
 	return out
 }
 
-// c15EvalPair runs the composability oracle on (in, t1 <= t2). Only called for inputs
-// without out-of-range indices.
+// c15EvalPair runs the composability oracle on (in, t1 <= t2). Both applications run on
+// struct copies of one original, i.e. on elements that share their update list.
 func c15EvalPair(in c15Input, t1, t2 c15T, count c15Counter) (fails []c15Fail) {
 	k := "C15/" + in.kind()
 	fail := func(key, what string) {
 		fails = append(fails, c15Fail{key, what, map[string]any{"input": in.describe(), "t1": t1.String(), "t2": t2.String()}})
 	}
-	e := in.build()
-	for _, t := range []c15T{t1, t2} {
-		if err, pan := c15Call(e, t.time(c15QueryZone(t))); err != nil || pan != nil {
-			fail(k+"/compose/error", fmt.Sprintf("ApplyUpdatesUpTo(%s) in a two-step application failed: %v %v", t, err, pan))
-			return
-		}
+	r1, oor1 := c15RefApply(in, t1)
+	if len(oor1) > 0 {
+		return // the first step is refused: the single-instant oracle covers it
 	}
-	r1, _ := c15RefApply(in, t1)
-	r2, _ := c15RefApply(r1, t2)
+	r2, oor2 := c15RefApply(r1, t2)
 	direct, _ := c15RefApply(in, t2)
 	ordered := c15ChildOrdered(in.Updates)
-	if ordered && !(c15SameChildren(r2.Children, direct.Children) && c15SameUpdates(r2.Updates, direct.Updates)) {
+	if ordered && len(oor2) == 0 && !(c15SameChildren(r2.Children, direct.Children) && c15SameUpdates(r2.Updates, direct.Updates)) {
 		panic("harness: reference model is not composable on a child-ordered list: " + fw.JSON(in))
 	}
+	o := in.build()
+	e := c15StructCopy(o)
 	count("compose_pairs")
+	if err, pan := c15Call(e, t1.time(c15QueryZone(t1))); err != nil || pan != nil {
+		fail(k+"/compose/error", fmt.Sprintf("ApplyUpdatesUpTo(%s), first of two steps, failed although every update at or before it is in range: %v %v", t1, err, pan))
+		return
+	}
+	err, pan := c15Call(e, t2.time(c15QueryZone(t2)))
+	if len(oor2) > 0 {
+		// an out-of-range update that was pending after the first step is now due
+		count("compose_second_step_out_of_range")
+		var oe *osm.UpdateIndexOutOfRangeError
+		if pan != nil || err == nil || !errors.As(err, &oe) {
+			fail(k+"/compose/out-of-range-not-reported", fmt.Sprintf("second step reaches an update naming child %d of %d; result is %v (%T) panic %v, want *osm.UpdateIndexOutOfRangeError", oor2[0], len(in.Children), err, err, pan))
+		}
+		return
+	}
+	if err != nil || pan != nil {
+		fail(k+"/compose/error", fmt.Sprintf("ApplyUpdatesUpTo(%s), second of two steps, failed: %v %v", t2, err, pan))
+		return
+	}
 	// each call on its own is an application to the state it finds
 	if key, what := c15CheckState(e, r2, k+"/compose/two-step", false); key != "" {
 		fail(key, what)
 		return
 	}
+	defer func() {
+		if what, ok := c15Untouched(o, in); !ok {
+			fail(k+"/apply/writes-shared-update-list", "two-step application on a struct copy changed the original: "+what)
+		}
+	}()
 	if !ordered {
 		count("compose_pairs_not_asserted_child_unordered")
 		if !c15SameChildren(r2.Children, direct.Children) {
@@ -509,13 +571,22 @@ func c15EvalPair(in c15Input, t1, t2 c15T, count c15Counter) (fails []c15Fail) {
 		return
 	}
 	count("compose_pairs_asserted")
-	d := in.build()
+	d := c15StructCopy(o) // second copy of the same original: same update list as e had
 	if err, pan := c15Call(d, t2.time(c15QueryZone(t2))); err != nil || pan != nil {
 		return // reported by the single-instant oracle
 	}
 	cs, us := c15Extract(d)
 	if ecs, eus := c15Extract(e); !c15SameChildren(cs, ecs) || !c15SameUpdates(us, eus) {
-		fail(k+"/compose/differs-from-direct", fmt.Sprintf("apply(t1);apply(t2) differs from apply(t2): direct children %s pending %s", fw.JSON(cs), fw.JSON(us)))
+		key := k + "/compose/differs-from-direct"
+		f := in.build()
+		if err, pan := c15Call(f, t2.time(c15QueryZone(t2))); err == nil && pan == nil {
+			if fcs, fus := c15Extract(f); c15SameChildren(fcs, ecs) && c15SameUpdates(fus, eus) {
+				// right on an element with a list of its own: the earlier application on
+				// the sibling copy disturbed the shared list
+				key = k + "/compose/shared-update-list"
+			}
+		}
+		fail(key, fmt.Sprintf("apply(t1);apply(t2) differs from apply(t2) on a second copy: direct children %s pending %s", fw.JSON(cs), fw.JSON(us)))
 	}
 	return
 }
@@ -966,7 +1037,17 @@ func (x *c15Run) check(in c15Input, order, ann string) {
 	for i, t := range ts {
 		t := t
 		fails := c15EvalAt(in, t, count)
-		sig := fmt.Sprintf("%s/t-%s/lbi%v", static, pos[i], c15LateBeforeInTime(in.Updates, t))
+		oorAt := "" // out-of-range update due at t / only pending at t
+		for _, u := range in.Updates {
+			if u.Index >= len(in.Children) {
+				if !t.less(u.At) {
+					oorAt = "/oor-due"
+					break
+				}
+				oorAt = "/oor-pending"
+			}
+		}
+		sig := fmt.Sprintf("%s/t-%s/lbi%v%s", static, pos[i], c15LateBeforeInTime(in.Updates, t), oorAt)
 		if len(in.Updates) == 0 && len(in.Children) == 0 {
 			sig = ""
 		}
@@ -980,9 +1061,6 @@ func (x *c15Run) check(in c15Input, order, ann string) {
 		if len(fails) > 0 {
 			x.report(in, fails, func(y c15Input) []c15Fail { return c15EvalAt(y, t, func(string) {}) })
 		}
-	}
-	if c15HasOOR(in) {
-		return
 	}
 	// composability: all pairs t1 <= t2 when few, else neighbours, extremes and a sample
 	var pairs [][2]int
@@ -1011,12 +1089,7 @@ func (x *c15Run) check(in c15Input, order, ann string) {
 		x.res.Eval("")
 		x.res.Event(1)
 		if len(fails) > 0 {
-			x.report(in, fails, func(y c15Input) []c15Fail {
-				if c15HasOOR(y) {
-					return nil
-				}
-				return c15EvalPair(y, t1, t2, func(string) {})
-			})
+			x.report(in, fails, func(y c15Input) []c15Fail { return c15EvalPair(y, t1, t2, func(string) {}) })
 		}
 	}
 	sig := "pairs/" + static
@@ -1057,6 +1130,7 @@ func c15Exec(c fw.Case) *fw.Result {
 		// every update list of length <= maxm over (index 0..n, three timestamps[, reverse]);
 		// index n is the out-of-range one. Seed independent.
 		n, maxm := int(c.Int("n")), int(c.Int("maxm"))
+		shard, shards := int(c.Int("shard")), int(c.Int("shards")) // split on the first update
 		t0 := c15T{Sec: 1400000000}
 		stamps := []c15T{t0, t0.add(10_000_000_000), t0.add(20_000_000_000)}
 		type opt struct {
@@ -1085,14 +1159,19 @@ func c15Exec(c fw.Case) *fw.Result {
 				}
 				var rec func(prefix []c15Upd)
 				rec = func(prefix []c15Upd) {
-					in := c15Input{Rel: rel, Children: children, Updates: append([]c15Upd(nil), prefix...)}
-					x.check(in, "enum", ann)
-					lists++
+					if len(prefix) > 0 || shard == 0 {
+						in := c15Input{Rel: rel, Children: children, Updates: append([]c15Upd(nil), prefix...)}
+						x.check(in, "enum", ann)
+						lists++
+					}
 					if len(prefix) == maxm {
 						return
 					}
-					for _, o := range opts {
+					for oi, o := range opts {
 						p := len(prefix)
+						if p == 0 && oi%shards != shard {
+							continue
+						}
 						u := c15Upd{Index: o.idx, Version: 10 + p, At: stamps[o.ts], CS: int64(900 + p), Lat: 40 + float64(p), Lon: -70 - float64(p)}
 						rec(append(prefix, u))
 						if rel && len(prefix) < 2 && o.idx < n {
@@ -1175,7 +1254,8 @@ func init() {
 		Assumptions: []string{
 			"negative update indices are outside the statement and never generated",
 			"when an in-time update is out of range only the error (errors.As *osm.UpdateIndexOutOfRangeError, carrying an out-of-range index of the list), absence of a panic and 'no unnamed child changed' are asserted; whether in-range updates before it were applied and what Updates then holds is not",
-			"an out-of-range index carried only by a later (pending) update may or may not be reported early: both accepted",
+			"an out-of-range index carried only by an update later than t is not this call's business: the in-time updates must be applied, nil returned and the bad update stay pending; it must be reported by the call whose t reaches it (also as the second step of a two-step application)",
+			"shared update lists are ordinary inputs: every application runs on a struct copy (children cloned, Updates backing array shared with the original and with sibling copies), as a caller makes 'a copy' of an element; the original's update list and children must read exactly as before and LineStringAt on the original must still answer correctly. ApplyUpdatesUpTo may re-point the Updates field of its receiver but must not write into the list's elements",
 			"LineStringAt equality is asserted only for fully annotated ways (every node has a version or a location) whose in-time updates are in range; generated updates always carry version >= 1, so an applied update never turns a node into the 'no location' shape; partially annotated ways are executed and their disagreement with apply-then-LineString is only counted",
 			"composition with apply(t2) directly is asserted only when each child's updates are stored in time order; otherwise the two-step result is compared with two reference steps only",
 			"the Reverse flag is generated for every update but only way members carry a non-zero orientation; way nodes have no orientation and must ignore it",
@@ -1183,13 +1263,19 @@ func init() {
 			"consumer part: no orientation semantics are asserted, only that annotate.Relations gives the same relation whether a member way still carries its updates or has had those up to the relation's commit time applied by the reference model",
 		},
 		Cases: func(tier string, seed uint64) []fw.Case {
-			ncases, batch, maxm, maxpair, ncons := 100, 20, 3, 120, 8
+			ncases, batch, maxm, maxpair, ncons := 100, 20, 3, 80, 8
 			if tier == "thorough" {
-				ncases, batch, maxm, maxpair, ncons = 1000, 100, 4, 120, 80
+				ncases, batch, maxm, maxpair, ncons = 1000, 100, 4, 80, 80
 			}
 			var cs []fw.Case
 			for n := 0; n <= 3; n++ {
-				cs = append(cs, fw.Case{Kind: "enum", P: map[string]int64{"n": int64(n), "maxm": int64(maxm), "maxpair": 1000}})
+				shards := []int{1, 1, 3, 6}[n] // keeps every enum case short (a first update option has 3(n+1) values)
+				if tier == "thorough" {
+					shards = []int{1, 2, 9, 12}[n]
+				}
+				for sh := 0; sh < shards; sh++ {
+					cs = append(cs, fw.Case{Kind: "enum", P: map[string]int64{"n": int64(n), "maxm": int64(maxm), "maxpair": 1000, "shard": int64(sh), "shards": int64(shards)}})
+				}
 			}
 			for i := 0; i < ncases; i++ {
 				cs = append(cs, fw.Case{Kind: "random", Seed: gen.Sub(seed, "c15", i), P: map[string]int64{"batch": int64(batch), "maxpair": int64(maxpair)}})
@@ -1199,7 +1285,8 @@ func init() {
 			}
 			return fw.Number(cs)
 		},
-		Exec:       c15Exec,
-		Exhaustive: func(string) bool { return true },
+		Exec:        c15Exec,
+		HangSeconds: 600,
+		Exhaustive:  func(string) bool { return true },
 	})
 }
